@@ -140,7 +140,7 @@ def main():
             res = []
             for p_, v in sorted(ch.items()):
                 if v["exit"] == 1:
-                    res.append("%s: %s" % (p_, ", ".join(c.split(".", 1)[1] for c in v["clauses"])[:110]))
+                    res.append("%s: %s%s" % (p_, ", ".join(c.split(".", 1)[1] for c in v["clauses"])[:110], " [thorough tier only; missed by the quick tier]" if v.get("tier") == "thorough" else ""))
                 elif v["exit"] == 0:
                     res.append("%s: **missed**" % p_)
                 else:
